@@ -265,6 +265,9 @@ def run(m, iface, seed, n, opts):
     out = {"cases": 0, "failures": [], "counters": Counter(), "shapes": []}
     C = out["counters"]
     hier = hierarchy_ref_fields(spec)
+    deep = deep_chain(m, spec, mode, C)
+    if deep:
+        out["failures"].append(deep)
     for i in range(n):
         rng = random.Random(f"{seed}:{i}")
         c05 = mode in ("c05", "both")
@@ -326,6 +329,47 @@ def run(m, iface, seed, n, opts):
                                         "only_alt_mapped_cycle": _only_alt_cycle(problems, spec)})
     out["counters"] = dict(C)
     return out
+
+
+DEEP_CHAIN_LENGTH = 400
+
+
+def deep_chain(m, spec, mode, C):
+    """'any depth': a chain of DEEP_CHAIN_LENGTH objects linked through an Optional reference to their own class"""
+    from krrood.ormatic.dao import to_dao
+    link = next(((c["name"], f["name"]) for c in spec["classes"] if not c.get("unmapped") for f in c["fields"]
+                 if f["kind"] == "self_opt" and not f.get("no_init")), None)
+    if link is None:
+        return None
+    cls = getattr(m, link[0])
+    objs = []
+    for k in range(DEEP_CHAIN_LENGTH):
+        o = cls()
+        if hasattr(o, "uid"):
+            object.__setattr__(o, "uid", k + 1)
+        objs.append(o)
+    for a, b in zip(objs, objs[1:]):
+        object.__setattr__(a, link[1], b)
+    C["deep_chains"] += 1
+    check = "C04" if mode in ("c04", "both") else "C05"
+    try:
+        back = to_dao(objs[0]).from_dao()
+        n = 0
+        while back is not None:
+            n += 1
+            back = getattr(back, link[1])
+        if n == DEEP_CHAIN_LENGTH:
+            C["deep_chains_converted"] += 1
+            return None
+        problem = f"a chain of {DEEP_CHAIN_LENGTH} objects linked through {link[0]}.{link[1]} came back with {n} objects"
+        return {"check": check, "i": -1, "problems": [problem], "hier": False, "shape": "deep-chain"}
+    except RecursionError:
+        return {"check": check, "i": -1, "hier": False, "shape": "deep-chain", "only_deep_chain_recursion": True,
+                "problems": [f"a chain of {DEEP_CHAIN_LENGTH} objects linked through {link[0]}.{link[1]} cannot be converted: RecursionError "
+                             f"(to_dao / from_dao recurse through every reference)"]}
+    except Exception as e:
+        return {"check": check, "i": -1, "hier": False, "shape": "deep-chain",
+                "problems": [f"a chain of {DEEP_CHAIN_LENGTH} objects linked through {link[0]}.{link[1]}: {type(e).__name__}: {e}"[:300]]}
 
 
 def _stream_root(rng, m, spec, c05):
